@@ -846,6 +846,7 @@ package server
 //@ may_emit *
 //@ ensures[C19] exactly_one_record: count(Log(_, _, _)) == 1 && emitted(Log(old(h.logger), "Request", _))
 //@ on_panic ensures[C19] one_record_even_when_the_handler_aborts: count(Log(_, _, _)) == 1
+//@ ensures[C15,C19] an_aborted_response_is_not_finished_as_if_complete: none(CalleePanic) && none(Recovered)
 //@ ensures[C19] forwards_once_before_logging: count(Forward(_, _, _)) == 1 && first(Forward(_, _, _), Log(_, _, _))
 //@ ensures[C19] status_and_size_are_what_the_writer_recorded: emitted(AttrInt("status", writer.statusCode)) && emitted(AttrInt("resp_content_length", writer.bytesWritten))
 //@ ensures[C19] request_line_attributes: emitted(AttrStr("method", final(r).Method)) && emitted(AttrStr("host", final(r).Host)) && emitted(AttrStr("path", final(r).URL.Path)) && emitted(AttrStr("query", final(r).URL.RawQuery)) && emitted(AttrStr("request_id", hdrGet(final(r).Header, "X-Request-ID")))
